@@ -3,7 +3,8 @@ use crate::common::*;
 use crate::ctx::Ctx;
 use crate::oracles::*;
 use serde_json::{json, Value};
-use vlib::par::{decode, par_fold, product};
+use crate::sweep::{run_sweep, Sweep};
+use vlib::par::{decode, product};
 use vlib::refhdr::{assemble, RawEntry, RawHeader, RawLead};
 use vlib::report::{Acc, SubReport};
 
@@ -16,14 +17,15 @@ fn hdr(n_entries: usize, store_len: usize, tag0: u32) -> RawHeader {
     RawHeader::new(entries, store)
 }
 
-pub fn run(ctx: &Ctx) -> i32 {
-    let payloads: [&[u8]; 3] = [b"", b"\x01", b"123456789"];
+pub fn sweeps(ctx: &Ctx) -> Vec<Sweep> {
+    let payloads: [&'static [u8]; 3] = [b"", b"\x01", b"123456789"];
     let max_main_store = if ctx.thorough() { 24u64 } else { 9 };
     let max_entries = if ctx.thorough() { 6u64 } else { 4 };
     let rad = [max_entries, 17, max_entries, max_main_store, 3];
     let n = product(&rad);
     let lead = RawLead::new("n");
-    let a = merge(par_fold(n, Acc::new, |i, acc| {
+    let rule = format!("signature entries 0..{} × signature store length 0..=16 (every residue mod 8) × main entries 0..{} × main store length 0..{} × payload length {{0,1,9}}; oracle: offsets equal the harness's layout and an independent scan of the written bytes (intro magic at both header offsets, len − payload = |content|, strictly increasing); non-trivial = accepted", max_entries - 1, max_entries - 1, max_main_store - 1);
+    vec![Sweep::new("hand-encoded", rule, n, move |i, acc| {
         let d = decode(i, &rad);
         acc.evals += 1;
         let sig = hdr(d[0] as usize, d[1] as usize, 1000);
@@ -45,13 +47,12 @@ pub fn run(ctx: &Ctx) -> i32 {
             Ok(Err(k)) => acc.count(&format!("rejected: {}", k)),
             Err(_) => acc.count("parse: panic (C04's business)"),
         }
-    }));
-    let s1 = SubReport::new(
-        "hand-encoded",
-        "A",
-        &format!("signature entries 0..{} × signature store length 0..=16 (every residue mod 8) × main entries 0..{} × main store length 0..{} × payload length {{0,1,9}}; oracle: offsets equal the harness's layout and an independent scan of the written bytes (intro magic at both header offsets, len − payload = |content|, strictly increasing); non-trivial = accepted", max_entries - 1, max_entries - 1, max_main_store - 1),
-        a,
-    );
+    })]
+}
+
+pub fn run(ctx: &Ctx) -> i32 {
+    let sw = sweeps(ctx);
+    let (s1, _ev) = run_sweep(ctx, &sw[0]);
     let s2 = crate::c01::run_assets(ctx, "assets");
     let s3 = crate::corpus::run_shared(ctx, "corpus", &["C16"]);
     for s in [&s1, &s3] {
